@@ -287,6 +287,26 @@ class CaseResult:
         return self.obs == self.pred
 
 
+def _observe_worker(args):
+    modname, case = args
+    import importlib
+    import_sdk()
+    prop = importlib.import_module(modname).PROPERTY
+    obs = canonical(prop.observe(case))
+    return obs, prop.oracle(case, obs)
+
+
+_POOL = None
+
+
+def _pool():
+    global _POOL
+    if _POOL is None:
+        import multiprocessing
+        _POOL = multiprocessing.get_context('fork').Pool(min(16, os.cpu_count() or 1))
+    return _POOL
+
+
 def evaluate(prop, cases, driver, origin='generated'):
     """Run implementation, model and oracle on cases."""
     reqs, spans = [], []
@@ -295,15 +315,22 @@ def evaluate(prop, cases, driver, origin='generated'):
         spans.append((len(reqs), len(reqs) + len(r)))
         reqs.extend(r)
     replies = driver.batch(reqs)
+    if getattr(prop, 'parallel', False) and len(cases) > 3:
+        observed = _pool().map(_observe_worker, [(type(prop).__module__, c) for c in cases], chunksize=1)
+    else:
+        observed = None
     out = []
-    for c, (a, b) in zip(cases, spans):
+    for n, (c, (a, b)) in enumerate(zip(cases, spans)):
         rep = replies[a:b]
         bad = [x for x in rep if isinstance(x, dict) and 'bad-op' in x]
         if bad:
             raise RuntimeError('driver rejected a request of case %r: %r' % (c, bad[0]))
-        obs = canonical(prop.observe(c))
+        if observed is not None:
+            obs, orc = observed[n]
+        else:
+            obs = canonical(prop.observe(c))
+            orc = prop.oracle(c, obs)
         pred = canonical(prop.predict(c, rep))
-        orc = prop.oracle(c, obs)
         hit = sorted(prop.flags_hit(c, rep))
         out.append(CaseResult(c, obs, pred, orc, hit, origin))
     return out
